@@ -638,6 +638,8 @@ func terminateOrphanedInstances(n *NodeGroup, instances []*string) {
 	for i := 0; i < numInstances; i += terminateBatchSize {
 		batch := instances[i:minInt(i+terminateBatchSize, numInstances)]
 
+		// each call carries only its own batch
+		instanceIds = instanceIds[:0]
 		for _, id := range batch {
 			instanceIds = append(instanceIds, *id)
 		}
